@@ -206,6 +206,35 @@ pub fn remove_run_dir(dir: &Path) {
     let _ = std::fs::remove_dir_all(dir);
 }
 
+/// Copies an executable to the scratch file system, readable and executable by everybody: the compiler runs as an
+/// unprivileged user, who may not be able to reach the build directory (e.g. below /root).
+pub fn stage_binary(bin: &Path, tag: &str) -> Result<PathBuf, String> {
+    let dir = scratch_base().join(format!("verif-bin-{}-{}", std::process::id(), tag));
+    std::fs::create_dir_all(&dir).map_err(|e| format!("{}: {e}", dir.display()))?;
+    let _ = std::fs::set_permissions(&dir, std::fs::Permissions::from_mode(0o755));
+    let dest = dir.join(bin.file_name().unwrap_or_default());
+    std::fs::copy(bin, &dest).map_err(|e| format!("staging {}: {e}", bin.display()))?;
+    std::fs::set_permissions(&dest, std::fs::Permissions::from_mode(0o755)).map_err(|e| e.to_string())?;
+    Ok(dest)
+}
+
+pub fn unstage_binaries() {
+    let prefix = format!("verif-bin-{}-", std::process::id());
+    if let Ok(rd) = std::fs::read_dir(scratch_base()) {
+        for e in rd.flatten() {
+            if e.file_name().to_string_lossy().starts_with(&prefix) {
+                let _ = std::fs::remove_dir_all(e.path());
+            }
+        }
+    }
+}
+
+impl Executor {
+    pub fn new(simhost: &Path, tag: &str) -> Result<Executor, String> {
+        Ok(Executor { simhost: stage_binary(simhost, tag)?, tag: tag.to_owned() })
+    }
+}
+
 pub struct Executor {
     pub simhost: PathBuf,
     pub tag: String,
